@@ -479,6 +479,7 @@ impl World {
                 self.enc.enable_re_use_label_with_max_consecutive(t[1].parse().unwrap());
                 format!("enc {}", enc_state_str(&self.enc))
             }
+            "EISEN" => format!("ok {}", if self.enc.is_enabled_re_use_label() { 1 } else { 0 }),
             "ENCAP" | "EEXT" => {
                 let pdu = bytes_tok(t[1]);
                 let fid: u8 = t[2].parse().unwrap();
@@ -948,7 +949,9 @@ fn main() {
             writeln!(out, "{}", line).unwrap();
             continue;
         }
-        let r = w.apply(line, true);
+        // a panic that escapes the per-call catch_unwind (e.g. inside the state observation) must not kill the executor:
+        // the remaining cases of the shard would be lost
+        let r = catch_unwind(AssertUnwindSafe(|| w.apply(line, true))).unwrap_or_else(|_| "PANIC".into());
         writeln!(out, "{}", r).unwrap();
     }
 }
